@@ -489,6 +489,9 @@ impl<'de, 't> Visitor<'de> for VMap<'t> {
         f.write_str("map")
     }
     fn visit_map<A: MapAccess<'de>>(self, mut a: A) -> Result<Val, A::Error> {
+        // serde's own map visitors ask for the hint (and cap it); ask too, so that the hint's
+        // arithmetic is exercised, but do not allocate from it (maps are outside C04's allocation claim)
+        let _ = a.size_hint();
         let mut out = Vec::new();
         while let Some(k) = a.next_key_seed(Seed(self.0))? {
             let v = a.next_value_seed(Seed(self.1))?;
